@@ -64,6 +64,20 @@ class InjectedFailure(OSError):
     pass
 
 
+class InjectedFailure2(MemoryError):
+    """The same injected failures in a flavour that is NOT an OSError (a thread that cannot be started raises
+    RuntimeError, an allocation fails with MemoryError): 'a call that raised leaves no trace' does not depend on the class.
+    (MemoryError, not RuntimeError: the harness reads RuntimeError as 'already started'.)"""
+
+
+_FLIP = [0]
+
+
+def injected(msg):
+    _FLIP[0] += 1
+    return (InjectedFailure2 if _FLIP[0] % 2 == 0 else InjectedFailure)(msg)
+
+
 class Script:
     """Fault cell shared between the driver and the emitters of one observer."""
 
@@ -93,7 +107,7 @@ def make_emitter_class(script: Script):
     class ScriptedEmitter(EventEmitter):
         def __init__(self, event_queue, watch, *, timeout=1.0, event_filter=None):
             if script.fault == "C":
-                raise InjectedFailure("scripted constructor failure")
+                raise injected("scripted constructor failure")
             super().__init__(event_queue, watch, timeout=timeout, event_filter=event_filter)
             script.created.append(self)
 
@@ -103,7 +117,7 @@ def make_emitter_class(script: Script):
             script.start_log.append(wkey(self.watch))
             if isinstance(script.fault, (list, tuple)) and script.fault[0] == "F" and script.fault[1] == k:
                 script.failed_watch = wkey(self.watch)
-                raise InjectedFailure("scripted start failure")
+                raise injected("scripted start failure")
             try:
                 super().start()
             except RuntimeError:
@@ -185,7 +199,7 @@ class Impl:
                 raise ValueError(c)
         except KeyError as e:
             res = classify_keyerror(e)
-        except InjectedFailure as e:
+        except (InjectedFailure, InjectedFailure2) as e:
             res = "Ctor" if "constructor" in str(e) else "Start"
         except RuntimeError:
             res = "Already"
@@ -253,6 +267,7 @@ def probe_steps(seq):
 
 def run_impl(seq):
     """seq: list of [call, fault]. Returns the list of per-call observations."""
+    _FLIP[0] = len(seq)          # the flavour of the injected failures depends on the sequence only (replayable)
     im = Impl()
     out = []
     probes = probe_steps(seq)
